@@ -14,9 +14,11 @@ def run(tier, replay_path=None):
         fl, cl = (2, 5) if tier == "quick" else (3, 6)
         s1, r1 = strgen.mc_escape(os.path.join(wd, "mc_full"), "esc_alpha_full.json", fl, check_decode=False)
         s2, r2 = strgen.mc_escape(os.path.join(wd, "mc_core"), "esc_alpha_core.json", cl, check_decode=False)
-        states, gen = r1.distinct + r2.distinct, r1.generated + r2.generated
-        log("[C17] MC: full<=%d: %d strings, core<=%d: %d strings (RoundTrip holds on the model)" % (fl, len(s1), cl, len(s2)))
-        strings = list(dict.fromkeys(s1 + s2 + strgen.rand_strings(rng, 3000 if tier == "quick" else 60000)))
+        # every ASCII character and every ordered pair of them (control characters next to digits and letters included)
+        s3, r3 = strgen.mc_escape(os.path.join(wd, "mc_ascii"), "esc_alpha_ascii.json", 2, check_decode=False)
+        states, gen = r1.distinct + r2.distinct + r3.distinct, r1.generated + r2.generated + r3.generated
+        log("[C17] MC: full<=%d: %d strings, core<=%d: %d strings, ascii<=2: %d strings (RoundTrip holds on the model)" % (fl, len(s1), cl, len(s2), len(s3)))
+        strings = list(dict.fromkeys(s1 + s2 + s3 + strgen.rand_strings(rng, 3000 if tier == "quick" else 60000)))
     cases = [{"id": i, "s": s} for i, s in enumerate(strings)]
     recs, dt = replay("esc", cases, wd)
     verdicts, vt = validate("EscTrace", recs, os.path.join(wd, "tv"), jvms=8)
@@ -33,7 +35,7 @@ def run(tier, replay_path=None):
                 V.note("DRIFT: C17 escape/unescape differs from the modelled chain on %r" % r["s"])
     cov = {"states": max(states, 1), "transitions": max(gen, 1), "traces_validated_against_impl": len(verdicts),
            "evaluations": len(verdicts) * 3, "distinct_nontrivial": nontriv,
-           "rule": "strings = all words over the 24-symbol escape alphabet (short) and the 6-symbol core alphabet (longer), enumerated by TLC (MCEscape, invariant RoundTrip on the modelled replace chain), + seeded random Unicode strings; each replayed through escape_string/unescape_string of the 3 real backends; non-trivial = escaping changed the string on some backend",
+           "rule": "strings = all words over the 24-symbol escape alphabet (short) and the 6-symbol core alphabet (longer) and all words of at most two ASCII characters (128 symbols), enumerated by TLC (MCEscape, invariant RoundTrip on the modelled replace chain), + seeded random Unicode strings; each replayed through escape_string/unescape_string of the 3 real backends; non-trivial = escaping changed the string on some backend",
            "samples": [{"s": r["s"], "obs": r["obs"]} for r in recs[:: max(1, len(recs) // 4)][:4]],
            "impl_model_exact": drift == 0, "drift": drift, "exhaustive": False}
     return std_finish(pid, tier, t0, V, cov, ["TLC and its JSON reader are correct", "the harness copies escape_string/unescape_string results verbatim"])
